@@ -353,7 +353,7 @@ void COTmrUnlock(void) {
 }
 void COVerifYield(int site) { if (W) W->preemptPoint(site); }
 void CONmtModeChange(CO_NMT *, CO_MODE mode) { if (W) { W->ev(EV_MODECHANGE, mode); if (W->onModeChange) W->onModeChange((int)mode); } }
-void CONmtResetRequest(CO_NMT *, CO_NMT_RESET reset) { if (W) W->ev(EV_RESETREQ, reset); }
+void CONmtResetRequest(CO_NMT *, CO_NMT_RESET reset) { if (W) { W->ev(EV_RESETREQ, reset); if (W->onResetRequest) W->onResetRequest((int)reset); } }
 void CONmtHbConsEvent(CO_NMT *, uint8_t nodeId) { if (W) { W->ev(EV_HBEVENT, nodeId); if (W->onHbConsEvent) W->onHbConsEvent(nodeId); } }
 void CONmtHbConsChange(CO_NMT *, uint8_t nodeId, CO_MODE mode) { if (W) { W->ev(EV_HBCHANGE, nodeId, mode); if (W->onHbConsChange) W->onHbConsChange(nodeId, (int)mode); } }
 CO_ERR COLssLoad(uint32_t *baudrate, uint8_t *nodeId) {
